@@ -1,7 +1,7 @@
 (* C07  Results mirror the return annotation (rendering of the result list). *)
 From Coq Require Import List String Ascii ZArith Bool Permutation Sorting.Sorted. Import ListNotations.
 From SV Require Import Lib.Str Model.Types Model.Api Model.Back Proofs.MoreProofs.
-From SV Require Import Model.FrontSmall Model.View Model.Front Proofs.FrontProofs.
+From SV Require Import Model.FrontSmall Model.View Model.Front Proofs.FrontProofs Proofs.RunProofs.
 
 (* "-> None": no results, and no marker either *)
 Theorem C07_none_no_results : forall classes rmap nc r t s,
@@ -33,8 +33,15 @@ Theorem C07_front_annotated_results : forall env f fid rdocs rt u rs amb,
               map r_type rs = map Some (match t with TTuple ts => ts | _ => [t] end) /\
               Forall (fun r => r_id r = fid ++ K"/" ++ r_name r) rs.
 Proof. exact annotated_results. Qed.
+(* END TO END: whatever the docstring says, a function annotated "-> None" is written without any result *)
+Theorem C07_none_annotation_end_to_end : forall classes rmap nc env f fid rdocs u rs amb s,
+  str_eqb (fn_name f) (K"__init__") = false -> fn_type f = Some (FRet MNone u) ->
+  parse_results env f fid rdocs = Ok (rs, amb) ->
+  result_string classes rmap nc rs s = Ok ([], s).
+Proof. exact none_annotation_end_to_end. Qed.
 Print Assumptions C07_none_no_results.
 Print Assumptions C07_result_items.
 Print Assumptions C07_none_suppresses_refuted.
 Print Assumptions C07_result_text_shape.
 Print Assumptions C07_front_annotated_results.
+Print Assumptions C07_none_annotation_end_to_end.
